@@ -77,7 +77,7 @@ def build(kind, mode, precision, convergence_step=None):
     return a, (lambda: dcls(precision=precision, **dkw))
 
 
-MIA_EDGES = np.linspace(0, 1024, 9)
+MIA_EDGES = np.linspace(0, 32, 9)          # samples are 0..15 (up to 31 after the x+1, 2x chains; squares beyond 32 are discarded as out of range)
 
 
 class Recorder:
